@@ -223,9 +223,12 @@ def _magnitude_guard(op, params, mvs, nargs):
     """TLC has 32-bit integers.  A conservative bound on every intermediate of the verdict
     (products of the operands' and the result's numerators, products of denominators) must stay
     below 2^31, otherwise the event is not encodable (skipped and counted, never a verdict)."""
+    return _magnitude_guard_G(op, params, [[coef_to_G(v) for v in mv.values()] for mv in mvs], nargs)
+
+
+def _magnitude_guard_G(op, params, css, nargs):
     S, D = [], []
-    for mv in mvs:
-        cs = [coef_to_G(v) for v in mv.values()]
+    for cs in css:
         if not cs:
             S.append(1)
             D.append(1)
